@@ -45,7 +45,7 @@ type namedFilter struct {
 	name string
 }
 
-var theTracer = &Tracer{}
+var theTracer = &Tracer{seen: map[string]int{}}
 
 func init() {
 	kcache.VerifTrace = func(actor interface{}, ev string, args ...interface{}) { theTracer.Hook(actor, ev, args...) }
